@@ -1,10 +1,216 @@
 import CueVerif.Driver.Proto
+import CueVerif.Driver.C01
+import CueVerif.Spec.Export
+/-!
+Line protocol of the C07 model driver (words separated by single blanks; byte strings as
+lowercase hex, "-" = empty).
+
+  conjunct words   T:int | T:float | T:number | T:string | T:bool | T:bytes | T:top
+                   B:<op>:<operand>   op ∈ lt le gt ge ne
+                                      operand = i<decimal int> (int atom, e.g. i-128)
+                                              | f<coeff>e<exp> (float atom coeff·10^exp, e.g. f15e-1)
+                                              | s<hex> (string)
+                   R:<name>           a predeclared range (accepted in `sat`; answered by `simp`)
+                   T:uint             the prefix word `simp` answers (accepted in `sat`: = R:uint)
+  atom words       i… | f… | s<hex> | null | true | false
+
+  label <hex s>          O  `id <hex name>` when `printLabel` gives an identifier, `str <hex literal
+                            text incl. quotes>` otherwise; `nonascii` when s has a byte ≥ 0x80
+                            (unicode.IsLetter/IsDigit are not available to the driver)
+  plabel id <hex name>   O  `str <hex s>` | `def` | `hid` | `hiddef` | `bad`   (`parseLabel`, nfc = id:
+  plabel str <hex text>      compare on NFC-stable text only)
+  range <c1> <c2> …      O  `adt.MatchBuiltinRange`: the predeclared name or `-`
+  simp <c1> <c2> …       O  the `*adt.Conjunction` arm with Simplify (`exportConj`): `R:<name>` when
+                            MatchBuiltinRange matches (two or more words); otherwise ALL conjunct words
+                            of the result — the unchanged input when `boundSimplifier.expr` is nil or
+                            there are fewer than two words, else the prefix word `T:int`/`T:uint` if
+                            any, min, max, the unused words — sorted ascending, joined by `,`; `-` when
+                            empty
+  simpraw <c1> …         I  `-` when `expr` returns nil, else `<prefix>;<min>;<max>;<rest>` (prefix
+                            int | uint | -, min/max a word or -, rest the unused words in input order
+                            joined by `,` or -)
+  sat <atom> <c1> …      O  `true`/`false`: the atom satisfies every conjunct (C03's `satAll`, regexp
+                            oracle constantly false)
+  rtv <tokens…>          O  CueCore (token syntax of Driver/C01.lean): v := eval e;
+                            `ok` when eval (exportV v) = v, else `differs`
+  final <tokens…>        O  the Final projection of eval e, rendered as by C01's driver, followed by
+                            ` ok`/` differs` for eval (exportFinal v) = projFinal v
+Unknown / ill-formed → `bad-op`.
+-/
 namespace CueVerif.Driver.C07
-open CueVerif CueVerif.Driver
+open CueVerif CueVerif.Driver CueVerif.Scalar CueVerif.Export
+
+/-! parsing -/
+
+def parseDecWord (s : String) : Option Dec :=
+  match s.splitOn "e" with
+  | [c, e] => do
+    let c ← parseInt? c
+    let e ← parseInt? e
+    pure ⟨c, e⟩
+  | _ => none
+
+/-- `i…` | `f…` | `s<hex>` -/
+def parseOperand (w : String) : Option Atom :=
+  if w.startsWith "i" then (parseInt? (w.drop 1).toString).map .int
+  else if w.startsWith "f" then (parseDecWord (w.drop 1).toString).map .float
+  else if w.startsWith "s" then (unhex (w.drop 1).toString).map .str
+  else none
+
+def parseAtomWord (w : String) : Option Atom :=
+  if w == "null" then some .null
+  else if w == "true" then some (.bool true)
+  else if w == "false" then some (.bool false)
+  else parseOperand w
+
+def parseOp : String → Option Op
+  | "lt" => some .lt | "le" => some .le | "gt" => some .gt | "ge" => some .ge | "ne" => some .ne
+  | _ => none
+
+def parseType : String → Option BType
+  | "bool" => some .bool | "int" => some .int | "float" => some .float
+  | "number" => some .number | "string" => some .string | "bytes" => some .bytes
+  | "top" => some .top
+  | _ => none
+
+def parseConjunct (w : String) : Option Constraint :=
+  match w.splitOn ":" with
+  | ["T", "uint"] => some (.range .uint)       -- the prefix word the `simp` op answers
+  | ["T", t] => (parseType t).map .type
+  | ["B", op, v] => do
+    let op ← parseOp op
+    let v ← parseOperand v
+    pure (.bound ⟨op, v⟩)
+  | ["R", n] => (Range.ofName? n).map .range
+  | _ => none
+
+/-! rendering -/
+
+def showOperand : Atom → String
+  | .int z => "i" ++ toString z
+  | .float d => "f" ++ toString d.coeff ++ "e" ++ toString d.exp
+  | .str s => "s" ++ hex s
+  | .bytes s => "y" ++ hex s
+  | .null => "null"
+  | .bool b => boolStr b
+
+def showOp : Op → String
+  | .lt => "lt" | .le => "le" | .gt => "gt" | .ge => "ge" | .ne => "ne" | .mat => "mat" | .nmat => "nmat"
+
+def showType : BType → String
+  | .bool => "bool" | .int => "int" | .float => "float" | .number => "number"
+  | .string => "string" | .bytes => "bytes" | .top => "top"
+
+def showConjunct : Constraint → String
+  | .type t => "T:" ++ showType t
+  | .bound b => "B:" ++ showOp b.op ++ ":" ++ showOperand b.val
+  | .range r => "R:" ++ Range.name r
+  | .atom a => "A:" ++ showOperand a
+
+/-- the word the conjunct was given as (so that the input spelling is echoed), else its rendering -/
+def wordOf (pairs : List (String × Constraint)) (c : Constraint) : String :=
+  match pairs.find? (fun p => p.2 == c) with
+  | some p => p.1
+  | none => showConjunct c
+
+def sortWords (ws : List String) : List String := (ws.toArray.qsort (· < ·)).toList
+
+def joinOrDash (ws : List String) : String := if ws.isEmpty then "-" else ",".intercalate ws
+
+def optWord (pairs : List (String × Constraint)) : Option Bound → String
+  | some b => wordOf pairs (.bound b)
+  | none => "-"
+
+def prefixStr : Prefix → String
+  | .none => "-" | .int => "int" | .uint => "uint"
+
+/-- the words of the printed conjunction (the `simp` op) -/
+def simpWords (ws : List String) (pairs : List (String × Constraint)) : String :=
+  let cs := pairs.map (·.2)
+  if cs.length < 2 then joinOrDash (sortWords ws)
+  else if matchBuiltinName cs != "" then "R:" ++ matchBuiltinName cs
+  else
+    match simplify cs with
+    | none => joinOrDash (sortWords ws)
+    | some r =>
+      let pre := match r.pre with
+        | .none => []
+        | .int => ["T:int"]
+        | .uint => ["T:uint"]
+      let mn := match r.min with | some b => [wordOf pairs (.bound b)] | none => []
+      let mx := match r.max with | some b => [wordOf pairs (.bound b)] | none => []
+      joinOrDash (sortWords (pre ++ mn ++ mx ++ r.rest.map (wordOf pairs)))
+
+def asciiE : Quote.Env :=
+  { isPrint := fun r => decide (0x20 ≤ r) && decide (r < 0x7F),
+    isGraphic := fun r => decide (0x20 ≤ r) && decide (r < 0x7F) }
+
+def noU : Nat → Bool := fun _ => false
+
+def featureStr : Option Feature → String
+  | some (.str s) => "str " ++ hex s
+  | some (.def_ _) => "def"
+  | some (.hidden _) => "hid"
+  | some (.hiddenDef _) => "hiddef"
+  | none => "bad"
+
+def parsePairs (ws : List String) : Option (List (String × Constraint)) :=
+  ws.mapM fun w => (parseConjunct w).map fun c => (w, c)
 
 /-- protocol handler for C07: words of one op line (after the property id) → answer -/
 def handle (ws : List String) : String :=
   match ws with
+  | ["label", s] =>
+    match unhex s with
+    | some b =>
+      if b.any (fun x => decide (0x80 ≤ x)) then "nonascii" else
+      match printLabel asciiE noU noU b with
+      | .ident n => "id " ++ hex n
+      | .lit t => "str " ++ hex t
+    | none => "bad-op"
+  | ["plabel", "id", s] =>
+    match unhex s with
+    | some b => featureStr (parseLabel id (.ident b))
+    | none => "bad-op"
+  | ["plabel", "str", s] =>
+    match unhex s with
+    | some b => featureStr (parseLabel id (.lit b))
+    | none => "bad-op"
+  | "range" :: cws =>
+    match parsePairs cws with
+    | some pairs =>
+      let n := matchBuiltinName (pairs.map (·.2))
+      if n == "" then "-" else n
+    | none => "bad-op"
+  | "simp" :: cws =>
+    match parsePairs cws with
+    | some pairs => simpWords cws pairs
+    | none => "bad-op"
+  | "simpraw" :: cws =>
+    match parsePairs cws with
+    | some pairs =>
+      match simplify (pairs.map (·.2)) with
+      | none => "-"
+      | some r =>
+        prefixStr r.pre ++ ";" ++ optWord pairs r.min ++ ";" ++ optWord pairs r.max ++ ";" ++
+          joinOrDash (r.rest.map (wordOf pairs))
+    | none => "bad-op"
+  | "sat" :: aw :: cws =>
+    match parseAtomWord aw, parsePairs cws with
+    | some a, some pairs => boolStr (satAll (fun _ _ => false) (pairs.map (·.2)) a)
+    | _, _ => "bad-op"
+  | "rtv" :: toks =>
+    match C01.parseExpr (2 * toks.length + 4) toks with
+    | some (e, []) =>
+      let v := Core.eval e
+      if Core.eval (exportV v) == v then "ok" else "differs"
+    | _ => "bad-op"
+  | "final" :: toks =>
+    match C01.parseExpr (2 * toks.length + 4) toks with
+    | some (e, []) =>
+      let v := Core.eval e
+      C01.showVal (projFinal v) ++ (if Core.eval (exportFinal v) == projFinal v then " ok" else " differs")
+    | _ => "bad-op"
   | _ => "bad-op"
 
 end CueVerif.Driver.C07
